@@ -142,9 +142,19 @@ C11Mix(ms, b, ord, q) ==
 C11Alloc(pb, eb, cs) ==
     [id |-> "C11/alloc/" \o ToString(pb) \o "/" \o ToString(eb) \o "/" \o ToJson(cs), label |-> "alloc/" \o ToString(pb), kind |-> "alloc",
      extra |-> [pid_base |-> pb, echo_base |-> eb, callers |-> cs]]
+\* UDP runs are told apart by their source port only (the IP-ID is a function of the TTL): with as few ephemeral ports as there are
+\* concurrent runs (+1) every run must still own its port for as long as it is running
+C11Ports(v6, q, ord) ==
+    [C11Req(<<"udp", "", v6>>, CHOOSE b \in WrapBases : b.name = "mid", ord, q, 0) EXCEPT
+        !.id = "C11/ports/udp" \o (IF v6 THEN "6" ELSE "4") \o "/" \o ToString(q) \o "/o" \o ToString(ord[1] + ord[2]),
+        !.label = "request/udp/few_ephemeral_ports/" \o ToString(q)] @@ [extra |-> [port_range |-> <<40000, 40000 + q>>]]
 C11All(u) ==
     { C11Req(pr, b, ord, 3, e) : pr \in Protos, b \in WrapBases, ord \in Orders, e \in {0, 2} }
+    \cup { C11Ports(v6, q, ord) : v6 \in BOOLEAN, q \in {3, 5}, ord \in Orders }
     \cup { C11Mix(ms, b, ord, q) : ms \in MixSets, b \in WrapBases, ord \in Orders, q \in {1, 2} }
+    \cup { [id |-> "C11/alloc/stress/" \o ToString(pb), label |-> "alloc/stress/" \o ToString(pb), kind |-> "alloc",
+            extra |-> [pid_base |-> pb, echo_base |-> 0, callers |-> <<[m |-> 1, n |-> 1]>>, stress |-> [g |-> 16, n |-> 120, m |-> 30, rounds |-> IF Tier = "quick" THEN 150 ELSE 1500]]]
+            : pb \in {0, 65000} }
     \cup { C11Alloc(pb, eb, cs) : pb \in {0, 65000, 65535, 131000}, eb \in {0, 65530, 65535},
               cs \in { <<[m |-> 255, n |-> 4], [m |-> 255, n |-> 4], [m |-> 30, n |-> 8], [m |-> 1, n |-> 8]>>, <<[m |-> 30, n |-> 20], [m |-> 30, n |-> 20]>> } }
 
